@@ -385,3 +385,16 @@ Definition c_hc_cov (tol lam : float) (H2 : s3f) (ds2 v2 eta1 eta2 : v3f) : N :=
     ofb (close3 tol (s0 * k, s1 * k, s2 * k) (e0 / lam, e1 / lam, e2 / lam) eta2
          && negb (all3 feq eta2 (0, 0, 0)) && spd_ok 30 H2)
   end.
+
+(** ** scale covariance of the membership tests: the verdicts at (lam s, lam z), lam = 2^k, equal
+    the model's predicate there and the verdicts at (s, z); cone-level step_length from a
+    tiny-scale interior point along a zero / inward direction returns alpha_max *)
+Definition c_feas_cov (model_p model_d : bool) (rp rd rp0 rd0 : bool) : N :=
+  ofb (Bool.eqb model_p rp && Bool.eqb model_d rd && Bool.eqb rp rp0 && Bool.eqb rd rd0).
+Definition c_exp_feas_cov (s z : v3f) (rp rd rp0 rd0 : bool) : N :=
+  c_feas_cov (exp_is_primal_feasible TOpsF s) (exp_is_dual_feasible TOpsF z) rp rd rp0 rd0.
+Definition c_pow_feas_cov (al : float) (s z : v3f) (rp rd rp0 rd0 : bool) : N :=
+  c_feas_cov (pow_is_primal_feasible TOpsF al s) (pow_is_dual_feasible TOpsF al z) rp rd rp0 rd0.
+Definition c_gp_feas_cov (al u w zu zw : list float) (rp rd rp0 rd0 : bool) : N :=
+  c_feas_cov (gp_is_primal_feasible TOpsF al u w) (gp_is_dual_feasible TOpsF al zu zw) rp rd rp0 rd0.
+Definition c_step_full (amax az as_ : float) : N := ofb (feq az amax && feq as_ amax).
